@@ -80,12 +80,14 @@ def units():
     u["dbl_off"] = dict(src=d + "/drv_double.cpp", flags=_lib_flags() + ["-isystem", EIGEN_INC, EIG],
                         mode="full", tier="quick")
     u["cases_off"] = dict(src=d + "/drv_cases.cpp", flags=_lib_flags(), mode="full", tier="quick")
+    u["archx_off"] = dict(src=d + "/drv_archx.cpp", flags=_lib_flags(), mode="full", tier="quick")
     u["iter_arch"] = dict(src=d + "/drv_iter_arch.cpp", flags=_lib_flags(), mode="full", tier="quick")
     u["iter_off"] = dict(src=d + "/drv_iter.cpp", flags=_lib_flags(), mode="full", tier="quick")
     u["lvalue"] = dict(src=d + "/drv_lvalue.cpp", flags=_lib_flags(), mode="full", tier="quick")
     u["cases_arch"] = dict(src=d + "/drv_cases_arch.cpp", flags=_lib_flags(), mode="full", tier="quick")
     u["cases_on"] = dict(src=d + "/drv_cases.cpp", flags=_lib_flags() + [CHK], mode="full", tier="thorough")
     u["controls"] = dict(src=d + "/controls.cpp", flags=_lib_flags() + [CHK], mode="full", tier="quick")
+    u["controls_archx"] = dict(src=d + "/controls_archx.cpp", flags=_lib_flags(), mode="full", tier="quick")
     u["controls_eigen"] = dict(src=d + "/controls_eigen.cpp", flags=_lib_flags() + [
         "-isystem", "/usr/include/eigen3"], mode="full", tier="quick")
     ex = os.path.join(REPO, "examples")
